@@ -1,7 +1,470 @@
-(* C07 - placeholder until the proofs land. *)
-From WP Require Import Base.Prelude Model.IntegrityBlock.
+(* C07 - Integrity-block signing: verifiable signature, untouched bundle, right ID.
+
+   "Signing a bundle file with an integrity block produces exactly the
+   deterministic-CBOR block [magic, version, signature list] followed by the
+   untouched original file bytes; each listed signature verifies, under the
+   Ed25519 public key stored in its own attributes, over the specified
+   data-to-be-signed (SHA-512 of the original file, the block as it stood
+   before that signature was added, the attributes, each length-prefixed),
+   newest first, and the reported Web Bundle ID is the lowercase unpadded
+   base32 of that key plus the 00 01 02 suffix.  The signer returns an error
+   and adds nothing when the signature it obtained does not verify under the
+   public key it is about to record, when the file already carries an
+   integrity block, or when the trailing length field exceeds the file size."
+
+   Statements only; proofs live in Proofs/IntegrityBlock{Base,Cbor,Sign,Id,Spec}.v.
+   Model = Model/IntegrityBlock.v (integrityblock.go, integrityblock-signer.go,
+   web-bundle-id.go, cmd/sign-bundle/integrityblock.go).  Spec side =
+   Spec/IntegrityBlock.v (CDDL of the explainer as tokens, dtbs, RFC 4648
+   base32 at bit level) over Spec/Cbor.v (senc_tokens, stokens, blt) and
+   Spec/Det.v (DetItem).  SHA-512 (H512), the signing strategy (strat_sign) and
+   ed25519.Verify (ed_ok) are universally quantified.
+   Size side conditions: lenN is an unbounded N while Go lengths are below
+   2^63; hypotheses "... < two64" / "lenN file < two63" always hold at run
+   time.  wfb x = every element of x is a byte (< 256).
+   MText is the model's Go constant TypeText (Spec.Cbor.TText is a token). *)
+From Coq Require Import Lia Permutation Sorted.
+From WP Require Import Base.Prelude Base.Base32 Base.Sha512.
+From WP Require Import Model.Cbor Model.Det Model.IntegrityBlock.
+From WP Require Import Spec.Cbor Spec.Det Spec.IntegrityBlock.
+From WP Require Import Proofs.BaseLemmas Proofs.CborHead Proofs.CborTokens.
+From WP Require Import Proofs.IntegrityBlockBase Proofs.IntegrityBlockCbor
+  Proofs.IntegrityBlockSign Proofs.IntegrityBlockId Proofs.IntegrityBlockSpec.
 Open Scope N_scope.
 
-Theorem c07_smoke : lenN (web_bundle_id (repeat 7 32)) = 56.
-Proof. reflexivity. Qed.
-Print Assumptions c07_smoke.
+(* ==== ObtainIntegrityBlock ========================================================= *)
+(* success exactly when the trailing 8-byte big-endian length equals the file
+   size; the result is then the fresh empty block *)
+Theorem obtain_ok_iff : forall (file : bytes) (b : iblock),
+  wfb file -> lenN file < two63 ->
+  (obtain file = Ok b <->
+   8 <= lenN file /\
+   (exists pre trail, file = pre ++ trail /\ lenN trail = 8 /\ unbe trail = lenN file) /\
+   b = empty_block).
+Proof. exact IntegrityBlockSign.obtain_ok_iff. Qed.
+Print Assumptions obtain_ok_iff.
+
+(* trailing length (a uint64, including values >= 2^63 that the int64
+   conversion turns negative) above the file size: error *)
+Theorem obtain_refuses_larger : forall (file pre trail : bytes),
+  wfb file -> lenN file < two63 -> file = pre ++ trail -> lenN trail = 8 ->
+  lenN file < unbe trail -> obtain file = Err.
+Proof. exact IntegrityBlockSign.obtain_refuses_larger. Qed.
+Print Assumptions obtain_refuses_larger.
+
+(* trailing length below the file size = an integrity block is already there *)
+Theorem obtain_refuses_existing_block : forall (file pre trail : bytes),
+  lenN file < two63 -> file = pre ++ trail -> lenN trail = 8 ->
+  unbe trail < lenN file -> obtain file = Err.
+Proof. exact IntegrityBlockSign.obtain_refuses_existing_block. Qed.
+Print Assumptions obtain_refuses_existing_block.
+
+Theorem obtain_short_file : forall (file : bytes), lenN file < 8 -> obtain file = Err.
+Proof. exact IntegrityBlockSign.obtain_short_file. Qed.
+Print Assumptions obtain_short_file.
+
+(* any list at all (no wfb, no size bound): an error or the empty block *)
+Theorem obtain_never_panics : forall (file : bytes),
+  obtain file = Err \/ obtain file = Ok empty_block.
+Proof. exact IntegrityBlockSign.obtain_never_panics. Qed.
+Print Assumptions obtain_never_panics.
+
+(* ==== the attributes map ============================================================ *)
+Theorem attrs_cbor_perm : forall (a a' : attrs), Permutation a a' -> attrs_cbor a = attrs_cbor a'.
+Proof. exact IntegrityBlockBase.attrs_cbor_perm. Qed.
+Print Assumptions attrs_cbor_perm.
+
+(* canonical: header with the entry count, then text(name) bytes(value) in
+   strictly ascending bytewise order of the encoded names; names are valid
+   UTF-8 and pairwise distinct; the whole is a deterministic item *)
+Theorem attrs_cbor_canonical : forall (a : attrs) (ab : bytes),
+  attrs_cbor a = Ok ab ->
+  AttrBytes a ab /\
+  (exists s, Permutation s a /\
+     StronglySorted (fun x y => blt (enc_bytes_of MText (fst x)) (enc_bytes_of MText (fst y))) s /\
+     ab = enc_map_header (lenN a) ++ flat_map attr_entry_bytes s) /\
+  keys_utf8 a = true /\ NoDup (map fst a) /\
+  (attrs_wf a -> DetItem ab).
+Proof.
+  intros a ab H. split; [apply attrs_cbor_spec; exact H|].
+  split; [apply attrs_cbor_sorted; exact H|].
+  destruct (attrs_cbor_encodable a ab H) as [H1 H2]. split; [exact H1|]. split; [exact H2|].
+  intros W. eapply attrs_cbor_det; eassumption.
+Qed.
+Print Assumptions attrs_cbor_canonical.
+
+(* encodable exactly when the names are valid UTF-8 and distinct *)
+Theorem attrs_cbor_total : forall (a : attrs),
+  attrs_small a -> keys_utf8 a = true -> NoDup (map fst a) -> exists ab, attrs_cbor a = Ok ab.
+Proof. exact IntegrityBlockCbor.attrs_cbor_total. Qed.
+Print Assumptions attrs_cbor_total.
+
+Theorem attrs_cbor_injective : forall (a a' : attrs) (ab : bytes),
+  attrs_small a -> attrs_small a' ->
+  attrs_cbor a = Ok ab -> attrs_cbor a' = Ok ab -> Permutation a a'.
+Proof. exact IntegrityBlockBase.attrs_cbor_injective. Qed.
+Print Assumptions attrs_cbor_injective.
+
+(* ==== data to be signed =============================================================== *)
+(* no size hypothesis: the uint64 conversion of the lengths is invisible in
+   the eight bytes written *)
+Theorem dtbs_layout : forall (h blk : bytes) (a : attrs) (d : bytes),
+  data_to_be_signed h blk a = Ok d ->
+  exists ab, attrs_cbor a = Ok ab /\
+    d = be 8 (lenN h) ++ h ++ be 8 (lenN blk) ++ blk ++ be 8 (lenN ab) ++ ab /\
+    d = Spec.IntegrityBlock.dtbs h blk ab.
+Proof.
+  intros h blk a d H. apply dtbs_ok_iff in H. destruct H as [ab [H1 H2]].
+  exists ab. split; [exact H1|]. split; [exact H2|]. rewrite <- dtbs_bytes_spec. exact H2.
+Qed.
+Print Assumptions dtbs_layout.
+
+Theorem dtbs_iff : forall (h blk : bytes) (a : attrs) (d : bytes),
+  data_to_be_signed h blk a = Ok d <->
+  exists ab, attrs_cbor a = Ok ab /\ d = Spec.IntegrityBlock.dtbs h blk ab.
+Proof. exact IntegrityBlockSpec.dtbs_spec. Qed.
+Print Assumptions dtbs_iff.
+
+(* the signed bytes determine the hash, the block and the attributes *)
+Theorem dtbs_injective : forall (h blk : bytes) (a : attrs) (h' blk' : bytes) (a' : attrs) (d : bytes),
+  lenN h < two64 -> lenN h' < two64 -> lenN blk < two64 -> lenN blk' < two64 ->
+  attrs_small a -> attrs_small a' ->
+  data_to_be_signed h blk a = Ok d -> data_to_be_signed h' blk' a' = Ok d ->
+  h = h' /\ blk = blk' /\ Permutation a a' /\ NoDup (map fst a).
+Proof. exact IntegrityBlockBase.dtbs_injective. Qed.
+Print Assumptions dtbs_injective.
+
+(* ==== IntegrityBlock.CborBytes ========================================================== *)
+(* 83, 48 magic, 44 version, array head |stack|, then per signature
+   82 attributes-map bstr(signature) *)
+Theorem block_cbor_layout : forall (b : iblock) (bs : bytes),
+  block_cbor b = Ok bs <->
+  exists items, StackBytes (ib_stack b) items /\
+    bs = [131] ++ (72 :: ib_magic) ++ (68 :: ib_version_b1) ++
+         enc_array_header (lenN (ib_stack b)) ++ List.concat items.
+Proof. exact IntegrityBlockCbor.block_cbor_layout. Qed.
+Print Assumptions block_cbor_layout.
+
+(* the same in the vocabulary of the explainer's CDDL: the deterministic token
+   encoding of [magic, version, [[attributes, signature]...]] with every
+   attributes map in canonical order *)
+Theorem block_cbor_spec : forall (b : iblock) (bs : bytes),
+  block_cbor b = Ok bs -> BlockBytes (map ssig_of (ib_stack b)) bs.
+Proof. exact IntegrityBlockSpec.block_cbor_spec. Qed.
+Print Assumptions block_cbor_spec.
+
+(* and the independent tokeniser reads exactly these tokens back, every head
+   in shortest form *)
+Theorem block_cbor_reads_back : forall (b : iblock) (bs : bytes),
+  lenN (ib_stack b) < two64 ->
+  Forall (fun s => ssig_small (ssig_of s)) (ib_stack b) ->
+  block_cbor b = Ok bs ->
+  exists st', Canon (map ssig_of (ib_stack b)) st' /\
+              bs = senc_tokens (block_tokens st') /\
+              stokens bs = Some (map with_width (block_tokens st')) /\
+              Forall tok_shortest (map with_width (block_tokens st')).
+Proof. exact IntegrityBlockSpec.block_cbor_reads_back. Qed.
+Print Assumptions block_cbor_reads_back.
+
+(* the block is ONE deterministic CBOR item and cbor.Deterministic accepts it *)
+Theorem block_cbor_det : forall (b : iblock) (bs : bytes),
+  block_wf b -> block_cbor b = Ok bs -> DetItem bs /\ det_check bs = Accept.
+Proof.
+  intros b bs W H. split; [eapply block_cbor_detitem|eapply IntegrityBlockCbor.block_cbor_det]; eassumption.
+Qed.
+Print Assumptions block_cbor_det.
+
+(* with UTF-8, pairwise distinct attribute names the serialization succeeds
+   and the deterministic check passes: on well-formed blocks neither can fail *)
+Theorem block_cbor_total : forall (b : iblock),
+  block_wf b -> Forall (fun s => attrs_encodable (is_attrs s)) (ib_stack b) ->
+  exists bs, block_cbor b = Ok bs /\ det_check bs = Accept.
+Proof. exact IntegrityBlockCbor.block_cbor_total. Qed.
+Print Assumptions block_cbor_total.
+
+(* ==== SignAndAddNewSignature ============================================================ *)
+Theorem sign_and_add_checked : forall (strat_sign : bytes -> R bytes)
+    (ed_ok : bytes -> bytes -> bytes -> bool) (hash : bytes) (b : iblock) (pk : bytes) (a : attrs)
+    (b' : iblock),
+  sign_and_add strat_sign ed_ok hash b pk a = Ok b' ->
+  exists blk dtbs sg,
+    block_cbor b = Ok blk /\ data_to_be_signed hash blk a = Ok dtbs /\
+    strat_sign dtbs = Ok sg /\ ed_ok pk dtbs sg = true /\
+    ib_stack b' = {| is_attrs := a; is_sig := sg |} :: ib_stack b.
+Proof. exact IntegrityBlockSign.sign_and_add_checked. Qed.
+Print Assumptions sign_and_add_checked.
+
+Theorem sign_and_add_ok_iff : forall (strat_sign : bytes -> R bytes)
+    (ed_ok : bytes -> bytes -> bytes -> bool) (hash : bytes) (b : iblock) (pk : bytes) (a : attrs)
+    (b' : iblock),
+  sign_and_add strat_sign ed_ok hash b pk a = Ok b' <->
+  exists blk dtbs sg,
+    block_cbor b = Ok blk /\ det_check blk = Accept /\
+    data_to_be_signed hash blk a = Ok dtbs /\
+    strat_sign dtbs = Ok sg /\ ed_ok pk dtbs sg = true /\ b' = push b a sg.
+Proof. exact IntegrityBlockSign.sign_and_add_ok_iff. Qed.
+Print Assumptions sign_and_add_ok_iff.
+
+(* The signature obtained does not verify under the key about to be recorded:
+   error.  "Adds nothing": sign_and_add is a pure function, its argument b is
+   a value and cannot change; the only block carrying the new signature is the
+   one returned inside Ok, and here nothing is returned.  (In Go the append to
+   SignatureStack is the last statement, after every error return.) *)
+Theorem sign_and_add_mismatch : forall (strat_sign : bytes -> R bytes)
+    (ed_ok : bytes -> bytes -> bytes -> bool) (hash : bytes) (b : iblock) (pk : bytes) (a : attrs)
+    (blk dtbs sg : bytes),
+  block_cbor b = Ok blk -> data_to_be_signed hash blk a = Ok dtbs ->
+  strat_sign dtbs = Ok sg -> ed_ok pk dtbs sg = false ->
+  sign_and_add strat_sign ed_ok hash b pk a = Err.
+Proof. exact IntegrityBlockSign.sign_and_add_mismatch. Qed.
+Print Assumptions sign_and_add_mismatch.
+
+Theorem sign_and_add_mismatch_never_ok : forall (strat_sign : bytes -> R bytes)
+    (ed_ok : bytes -> bytes -> bytes -> bool) (hash : bytes) (b : iblock) (pk : bytes) (a : attrs),
+  (forall blk dtbs sg, block_cbor b = Ok blk -> data_to_be_signed hash blk a = Ok dtbs ->
+                       strat_sign dtbs = Ok sg -> ed_ok pk dtbs sg = false) ->
+  forall b', sign_and_add strat_sign ed_ok hash b pk a <> Ok b'.
+Proof. exact IntegrityBlockSign.sign_and_add_mismatch_never_ok. Qed.
+Print Assumptions sign_and_add_mismatch_never_ok.
+
+(* ==== any sequence of signing operations =================================================== *)
+(* Valid_stack ed_ok hash st pks (Proofs/IntegrityBlockSign.v):
+     st = s :: rest, pks = pk :: pks'  requires
+       block_cbor {rest} = Ok blk, det_check blk = Accept,
+       data_to_be_signed hash blk (is_attrs s) = Ok dtbs, ed_ok pk dtbs (is_sig s) = true,
+       and Valid_stack for rest, pks'.
+   sign_all folds sign_and_add over a list of (public key, attributes). *)
+Theorem stack_invariant : forall (strat_sign : bytes -> R bytes)
+    (ed_ok : bytes -> bytes -> bytes -> bool) (hash : bytes) (ops : list (bytes * attrs)) (b' : iblock),
+  sign_all strat_sign ed_ok hash empty_block ops = Ok b' ->
+  Valid_stack ed_ok hash (ib_stack b') (rev (map fst ops)) /\
+  map is_attrs (ib_stack b') = rev (map snd ops) /\
+  lenN (ib_stack b') = lenN ops.
+Proof. exact IntegrityBlockSign.stack_invariant. Qed.
+Print Assumptions stack_invariant.
+
+(* from any valid block: earlier signatures are kept as they are, below the new ones *)
+Theorem stack_invariant_from : forall (strat_sign : bytes -> R bytes)
+    (ed_ok : bytes -> bytes -> bytes -> bool) (hash : bytes) (ops : list (bytes * attrs))
+    (b : iblock) (pks : list bytes) (b' : iblock),
+  Valid_stack ed_ok hash (ib_stack b) pks ->
+  sign_all strat_sign ed_ok hash b ops = Ok b' ->
+  exists newer,
+    ib_stack b' = newer ++ ib_stack b /\
+    map is_attrs newer = rev (map snd ops) /\
+    Valid_stack ed_ok hash (ib_stack b') (rev (map fst ops) ++ pks).
+Proof. intros s e h ops. exact (IntegrityBlockSign.sign_all_invariant s e h ops). Qed.
+Print Assumptions stack_invariant_from.
+
+(* when every operation records its key under "ed25519PublicKey", each
+   signature verifies under the key stored in its own attributes *)
+Theorem stack_invariant_self : forall (strat_sign : bytes -> R bytes)
+    (ed_ok : bytes -> bytes -> bytes -> bool) (hash : bytes) (ops : list (bytes * attrs)) (b' : iblock),
+  Forall (fun op => In (pk_attr_name, fst op) (snd op)) ops ->
+  sign_all strat_sign ed_ok hash empty_block ops = Ok b' ->
+  Valid_self ed_ok hash (ib_stack b') /\ lenN (ib_stack b') = lenN ops.
+Proof. exact IntegrityBlockSign.stack_invariant_self. Qed.
+Print Assumptions stack_invariant_self.
+
+(* ... and that key is unambiguous *)
+Theorem attr_value_unique : forall (a : attrs) (ab k v v' : bytes),
+  attrs_cbor a = Ok ab -> In (k, v) a -> In (k, v') a -> v = v'.
+Proof. exact IntegrityBlockSign.attr_value_unique. Qed.
+Print Assumptions attr_value_unique.
+
+(* ==== SignWithIntegrityBlock ================================================================ *)
+Theorem sign_file_layout : forall (H512 : bytes -> bytes) (strat_sign : bytes -> R bytes)
+    (ed_ok : bytes -> bytes -> bytes -> bool) (file pk out : bytes),
+  sign_file H512 strat_sign ed_ok file pk = Ok out ->
+  exists blk sg dtbs,
+    out = blk ++ file /\
+    block_cbor (one_sig_block pk sg) = Ok blk /\ blk = one_sig_bytes pk sg /\
+    det_check blk = Accept /\
+    block_cbor empty_block = Ok empty_block_bytes /\
+    data_to_be_signed (H512 file) empty_block_bytes (pk_attrs pk) = Ok dtbs /\
+    strat_sign dtbs = Ok sg /\ ed_ok pk dtbs sg = true /\
+    Valid_self ed_ok (H512 file) (ib_stack (one_sig_block pk sg)).
+Proof. exact IntegrityBlockSign.sign_file_layout. Qed.
+Print Assumptions sign_file_layout.
+
+Theorem sign_file_ok_iff : forall (H512 : bytes -> bytes) (strat_sign : bytes -> R bytes)
+    (ed_ok : bytes -> bytes -> bytes -> bool) (file pk out : bytes),
+  sign_file H512 strat_sign ed_ok file pk = Ok out <->
+  obtain file = Ok empty_block /\
+  exists sg, strat_sign (sign_file_dtbs H512 file pk) = Ok sg /\
+             ed_ok pk (sign_file_dtbs H512 file pk) sg = true /\
+             det_check (one_sig_bytes pk sg) = Accept /\
+             out = one_sig_bytes pk sg ++ file.
+Proof. exact IntegrityBlockSign.sign_file_ok_iff. Qed.
+Print Assumptions sign_file_ok_iff.
+
+Theorem sign_file_err_cases : forall (H512 : bytes -> bytes) (strat_sign : bytes -> R bytes)
+    (ed_ok : bytes -> bytes -> bytes -> bool) (file pk : bytes),
+  (obtain file = Err -> sign_file H512 strat_sign ed_ok file pk = Err) /\
+  (strat_sign (sign_file_dtbs H512 file pk) = Err -> sign_file H512 strat_sign ed_ok file pk = Err) /\
+  (forall sg, strat_sign (sign_file_dtbs H512 file pk) = Ok sg ->
+              ed_ok pk (sign_file_dtbs H512 file pk) sg = false ->
+              sign_file H512 strat_sign ed_ok file pk = Err) /\
+  (forall pre trail, wfb file -> lenN file < two63 -> file = pre ++ trail -> lenN trail = 8 ->
+                     unbe trail <> lenN file -> sign_file H512 strat_sign ed_ok file pk = Err).
+Proof.
+  intros H s e file pk. split; [apply sign_file_err_obtain|]. split; [apply sign_file_err_strategy|].
+  split; [intros sg; apply sign_file_err_verify|]. intros pre trail. apply sign_file_refusals.
+Qed.
+Print Assumptions sign_file_err_cases.
+
+(* completeness: nothing else can fail *)
+Theorem sign_file_complete : forall (H512 : bytes -> bytes) (strat_sign : bytes -> R bytes)
+    (ed_ok : bytes -> bytes -> bytes -> bool) (file pk sg : bytes),
+  obtain file = Ok empty_block ->
+  wfb pk -> lenN pk < two64 -> wfb sg -> lenN sg < two64 ->
+  strat_sign (sign_file_dtbs H512 file pk) = Ok sg ->
+  ed_ok pk (sign_file_dtbs H512 file pk) sg = true ->
+  sign_file H512 strat_sign ed_ok file pk = Ok (one_sig_bytes pk sg ++ file).
+Proof. exact IntegrityBlockSign.sign_file_complete. Qed.
+Print Assumptions sign_file_complete.
+
+Theorem sign_file_never_panics : forall (H512 : bytes -> bytes) (strat_sign : bytes -> R bytes)
+    (ed_ok : bytes -> bytes -> bytes -> bool) (file pk : bytes),
+  (forall m, strat_sign m <> Panic /\ strat_sign m <> Fuel) ->
+  sign_file H512 strat_sign ed_ok file pk = Err \/
+  exists out, sign_file H512 strat_sign ed_ok file pk = Ok out.
+Proof. exact IntegrityBlockSign.sign_file_never_panics. Qed.
+Print Assumptions sign_file_never_panics.
+
+(* ==== Web Bundle ID ============================================================================ *)
+Theorem id_correct : forall (pk : bytes), web_bundle_id pk = lower (b32_encode (pk ++ [0; 1; 2])).
+Proof. exact IntegrityBlockId.id_correct. Qed.
+Print Assumptions id_correct.
+
+(* Base/Base32.v is RFC 4648 base32 (bit-level spec) on whole 5-byte groups ... *)
+Theorem b32_encode_rfc4648 : forall (k : nat) (bs : bytes),
+  wfb bs -> List.length bs = (5 * k)%nat ->
+  b32_encode bs = sb32 bs /\ sb32 bs = sb32_nopad bs.
+Proof. exact IntegrityBlockSpec.b32_encode_rfc4648. Qed.
+Print Assumptions b32_encode_rfc4648.
+
+(* ... so for a 32-byte key the ID is the spec's unpadded lower-case base32 *)
+Theorem id_spec : forall (pk : bytes),
+  wfb pk -> List.length pk = 32%nat -> web_bundle_id pk = bundle_id pk.
+Proof. exact IntegrityBlockSpec.web_bundle_id_spec. Qed.
+Print Assumptions id_spec.
+
+(* 56 characters from a-z2-7, no '=' (35 bytes = 7 whole groups) *)
+Theorem id_length_56 : forall (pk : bytes),
+  List.length pk = 32%nat ->
+  lenN (web_bundle_id pk) = 56 /\ Forall id_char (web_bundle_id pk) /\ ~ In 61 (web_bundle_id pk).
+Proof. exact IntegrityBlockId.id_length_56. Qed.
+Print Assumptions id_length_56.
+
+Theorem id_injective : forall (pk pk' : bytes),
+  wfb pk -> wfb pk' -> List.length pk = 32%nat -> List.length pk' = 32%nat ->
+  web_bundle_id pk = web_bundle_id pk' -> pk = pk'.
+Proof. exact IntegrityBlockId.id_injective. Qed.
+Print Assumptions id_injective.
+
+(* ==== non-vacuity / executions ==================================================================== *)
+(* a toy "Ed25519": the signature of msg under pk is SHA-512(pk ++ msg) *)
+Definition toy_ok (pk msg sg : bytes) : bool := bytes_eqb sg (sha512 (pk ++ msg)).
+Definition toy_pk : bytes := map N.of_nat (seq 1 32).
+Definition toy_pk2 : bytes := map N.of_nat (seq 101 32).
+Definition toy_sign (pk : bytes) (msg : bytes) : R bytes := Ok (sha512 (pk ++ msg)).
+
+(* an unsigned "bundle": 24 content bytes then its own length (32) big-endian *)
+Definition ex_file : bytes := map N.of_nat (seq 200 24) ++ be 8 32.
+
+Example ex_obtain :
+  obtain ex_file = Ok empty_block /\ wfb ex_file /\ lenN ex_file < two63 /\
+  obtain (map N.of_nat (seq 0 7)) = Err /\                               (* too short *)
+  obtain ([1; 2; 3] ++ ex_file) = Err /\                                 (* block already present *)
+  obtain (map N.of_nat (seq 200 24) ++ be 8 33) = Err /\                 (* trailing > size *)
+  obtain (map N.of_nat (seq 200 24) ++ be 8 two63) = Err /\              (* trailing = 2^63 *)
+  obtain (map N.of_nat (seq 200 24) ++ be 8 (two64 - 1)) = Err /\        (* int64(-1) *)
+  obtain (map N.of_nat (seq 200 24) ++ be 8 (two64 - 32)) = Err.         (* int64(-32) *)
+Proof.
+  split; [vm_compute; reflexivity|]. split; [apply wfbb_wfb; vm_compute; reflexivity|].
+  split; [vm_compute; reflexivity|]. vm_compute. repeat split.
+Qed.
+
+Example ex_obtain_hyps :
+  exists pre trail, ex_file = pre ++ trail /\ lenN trail = 8 /\ unbe trail = lenN ex_file.
+Proof. exists (map N.of_nat (seq 200 24)), (be 8 32). vm_compute. repeat split. Qed.
+
+(* the whole flow, executed *)
+Example ex_sign_file :
+  exists sg,
+    sign_file sha512 (toy_sign toy_pk) toy_ok ex_file toy_pk = Ok (one_sig_bytes toy_pk sg ++ ex_file) /\
+    lenN sg = 64 /\
+    firstn 19 (one_sig_bytes toy_pk sg) =
+      [131; 72; 240; 159; 150; 139; 240; 159; 147; 166; 68; 49; 98; 0; 0; 129; 130; 161; 112] /\
+    det_check (one_sig_bytes toy_pk sg) = Accept /\
+    lenN (one_sig_bytes toy_pk sg) = 136.
+Proof. eexists. vm_compute. repeat split. Qed.
+
+(* the strategy signs with another key than the one it reports: refused *)
+Example ex_sign_file_mismatch :
+  sign_file sha512 (toy_sign toy_pk2) toy_ok ex_file toy_pk = Err /\
+  sign_file sha512 (toy_sign toy_pk) toy_ok ([1; 2; 3] ++ ex_file) toy_pk = Err /\
+  sign_file sha512 (fun _ => Err) toy_ok ex_file toy_pk = Err.
+Proof. vm_compute. repeat split. Qed.
+
+(* three signing operations (extra attributes, different attribute orders)
+   from the empty block: all accepted, newest first *)
+Definition ex_ops : list (bytes * attrs) :=
+  [(toy_pk, [(pk_attr_name, toy_pk)]);
+   (toy_pk, [(s2b "note", [1; 2; 3]); (pk_attr_name, toy_pk)]);
+   (toy_pk, [(pk_attr_name, toy_pk); (s2b "a", [])])].
+
+Example ex_three_signatures :
+  exists b', sign_all (toy_sign toy_pk) toy_ok (sha512 ex_file) empty_block ex_ops = Ok b' /\
+             map is_attrs (ib_stack b') = rev (map snd ex_ops) /\
+             (exists bs, block_cbor b' = Ok bs /\ det_check bs = Accept).
+Proof.
+  eexists. split; [vm_compute; reflexivity|]. split; [reflexivity|].
+  eexists. vm_compute. split; reflexivity.
+Qed.
+
+(* the second operation names a key the strategy does not hold: the whole
+   sequence stops with an error at that step *)
+Example ex_three_signatures_mismatch :
+  sign_all (toy_sign toy_pk) toy_ok (sha512 ex_file) empty_block
+    [(toy_pk, [(pk_attr_name, toy_pk)]); (toy_pk2, [(pk_attr_name, toy_pk2)])] = Err.
+Proof. vm_compute. reflexivity. Qed.
+
+Example ex_ops_self : Forall (fun op => In (pk_attr_name, fst op) (snd op)) ex_ops.
+Proof. repeat constructor; cbn [In fst snd]; auto. Qed.
+
+(* attributes in a different order give the same bytes; a duplicate or a
+   non-UTF-8 name is refused *)
+Example ex_attrs :
+  attrs_cbor [(s2b "note", [1; 2; 3]); (pk_attr_name, [9])] =
+  attrs_cbor [(pk_attr_name, [9]); (s2b "note", [1; 2; 3])] /\
+  attrs_cbor [(s2b "note", [1; 2; 3]); (pk_attr_name, [9])] =
+    Ok ([162; 100] ++ s2b "note" ++ [67; 1; 2; 3] ++ [112] ++ pk_attr_name ++ [65; 9]) /\
+  attrs_cbor [(s2b "n", [1]); (s2b "n", [2])] = Err /\
+  attrs_cbor [([255], [1])] = Err.
+Proof. vm_compute. repeat split. Qed.
+
+Example ex_block_wf : block_wf (one_sig_block toy_pk (repeat 7 64)).
+Proof.
+  apply one_sig_block_wf; try (vm_compute; reflexivity);
+    apply wfbb_wfb; vm_compute; reflexivity.
+Qed.
+
+(* the Go test vector (webbundleid_test.go): the public key of the test
+   private key, derived with Go's crypto/ed25519 *)
+Definition go_test_pk : bytes :=
+  [228; 213; 22; 201; 133; 154; 248; 99; 86; 163; 81; 102; 125; 189; 0; 67; 97; 16; 26; 146;
+   212; 2; 114; 254; 43; 206; 129; 187; 59; 113; 63; 45].
+Example ex_go_test_id :
+  web_bundle_id go_test_pk = s2b "4tkrnsmftl4ggvvdkfth3piainqragus2qbhf7rlz2a3wo3rh4wqaaic" /\
+  bundle_id go_test_pk = s2b "4tkrnsmftl4ggvvdkfth3piainqragus2qbhf7rlz2a3wo3rh4wqaaic" /\
+  List.length go_test_pk = 32%nat /\ wfbb go_test_pk = true.
+Proof. vm_compute. repeat split. Qed.
+
+(* RFC 4648 vectors: the model's encoder agrees with the bit-level spec also
+   on partial groups (padded) *)
+Example ex_b32_vectors :
+  map b32_encode [s2b ""; s2b "f"; s2b "fo"; s2b "foo"; s2b "foob"; s2b "fooba"; s2b "foobar"] =
+  map sb32 [s2b ""; s2b "f"; s2b "fo"; s2b "foo"; s2b "foob"; s2b "fooba"; s2b "foobar"].
+Proof. vm_compute. reflexivity. Qed.
